@@ -20,6 +20,22 @@ type Case struct {
 	S uint64 `json:"size"`
 	// Switches: bit 0 DisableMarshalTextUnit, bit 1 DisableMarshalJSONStringForm, bit 2 DisableMarshalJSONObjectForm (must be irrelevant here).
 	Switches int `json:"switches,omitempty"`
+	// Parser: the parser's settings (must be irrelevant as well): DefaultRule = Parser & 0xffff; bit 16: MaxInputLength 1; bit 17: MaxObjectKeys 1.
+	Parser int `json:"parser_settings,omitempty"`
+}
+
+func configureParser(p int) func() {
+	a, b, c := size.DefaultRule, size.MaxInputLength, size.MaxObjectKeys
+	if p != 0 {
+		size.DefaultRule = size.Rule(p & 0xffff)
+		if p>>16&1 == 1 {
+			size.MaxInputLength = 1
+		}
+		if p>>17&1 == 1 {
+			size.MaxObjectKeys = 1
+		}
+	}
+	return func() { size.DefaultRule, size.MaxInputLength, size.MaxObjectKeys = a, b, c }
 }
 
 func configure(sw int) func() {
@@ -131,12 +147,16 @@ func nontrivial(s uint64) bool {
 func TestCheck(t *testing.T) {
 	r := vkit.Start("C13")
 	defer r.Finish(t)
+	if r.ReplayCold() {
+		return
+	}
 	if r.Replay != "" {
 		var c Case
 		if err := r.LoadReplay(&c); err != nil {
 			t.Fatalf("replay: %v", err)
 		}
 		defer configure(c.Switches)()
+		defer configureParser(c.Parser)()
 		r.Serial(func(w *vkit.W) { judge(c, w); w.Eval(true) })
 		return
 	}
@@ -148,6 +168,7 @@ func TestCheck(t *testing.T) {
 			return err
 		}
 		defer configure(c.Switches)()
+		defer configureParser(c.Parser)()
 		judge(c, w)
 		w.Eval(true)
 		return nil
@@ -178,6 +199,30 @@ func TestCheck(t *testing.T) {
 			})
 		}
 	})
+	r.Phase("A00: the parser's settings (every DefaultRule subset and undefined bits, MaxInputLength 1, MaxObjectKeys 1) do not influence the renderings", func() {
+		settings := []int{}
+		for rule := 1; rule < 16; rule++ {
+			settings = append(settings, rule)
+		}
+		settings = append(settings, 0xffff, 1<<16, 1<<17, 1|1<<16|1<<17, 0xfff0)
+		for si, ps := range settings {
+			restore := configureParser(ps)
+			r.Serial(func(w *vkit.W) {
+				for _, v := range []uint64{0, 1, 2, 999, 1000, 1023, 1024, 1025, 2048, 1234567, 1 << 20, 1 << 30, 1 << 40, 1 << 50, 1 << 60, 1 << 63, ^uint64(0)} {
+					judge(Case{S: v, Parser: ps}, w)
+					w.Eval(nontrivial(v))
+				}
+			})
+			r.Parallel(int64(len(strata))/32, 1024, func(w *vkit.W, lo, hi int64) {
+				for i := lo; i < hi; i++ {
+					c := Case{S: strata[i*32+int64(si)], Parser: ps}
+					judge(c, w)
+					w.Eval(nontrivial(c.S))
+				}
+			})
+			restore()
+		}
+	})
 	r.Phase(fmt.Sprintf("A: %d stratified values (all < 2^20, odd x 2^k, decimal lengths, neighbours of 1000^k/1024^k, m x 1024^k, top 2049)", len(strata)), func() {
 		r.Parallel(int64(len(strata)), 4096, func(w *vkit.W, lo, hi int64) {
 			for i := lo; i < hi; i++ {
@@ -206,6 +251,8 @@ func TestCheck(t *testing.T) {
 		})
 	})
 	r.Sampled()
+	r.ColdPhase(coldFirst)
+
 	r.Phase("C: rapid", func() {
 		r.Rapid(t, "rapid-size", 0, r.Pick(20000, 400000), func(rt *rapid.T, w *vkit.W) vkit.RapidCase {
 			v := rapid.Uint64().Draw(rt, "v") >> uint(rapid.IntRange(0, 63).Draw(rt, "shr")) << uint(rapid.IntRange(0, 63).Draw(rt, "shl"))
